@@ -263,7 +263,7 @@ var profC10 = Profile{
 
 func init() {
 	Register(&Check{ID: "C10", Level: "exploration",
-		Rule: "one case = one generated workflow (multi-input, multi-output, fan-in/out, parameters, MapToTags taggers, StreamToSubStream + joined in-ports, Go-function tasks, Process.Prepend launchers, empty outputs) under one tape-chosen schedule. For EVERY finalized output the audit file is parsed (strict JSON decoding into the record type) and compared field by field, recursively down to the source files, with the lineage tree of the independent reference: ProcessName, Params, OutFiles, Upstream keys, inherited tags (superset; extras only from taggers), Command = every word the simulated shell actually received (launcher included), StartTime<=FinishTime, duration>=0. Round 5: the record on disk of every file that passed a tagging component holds the tag; sibling outputs of one task tagged alike. Round 6: stale longer audit files at output paths; the audit file is ONE JSON document; per-cent signs on command lines; duration = finish - start, interval contains the execution. Round 7: parameters that are not on the command line; the sibling of a tagger on an idle machine. distinct = event-log hash; non-trivial = >=2 tasks and >=1 non-default choice",
+		Rule: "one case = one generated workflow (multi-input, multi-output, fan-in/out, parameters, MapToTags taggers, StreamToSubStream + joined in-ports, Go-function tasks, Process.Prepend launchers, empty outputs) under one tape-chosen schedule. For EVERY finalized output the audit file is parsed (strict JSON decoding into the record type) and compared field by field, recursively down to the source files, with the lineage tree of the independent reference: ProcessName, Params, OutFiles, Upstream keys, inherited tags (superset; extras only from taggers), Command = every word the simulated shell actually received (launcher included), StartTime<=FinishTime, duration>=0. Round 5: the record on disk of every file that passed a tagging component holds the tag; sibling outputs of one task tagged alike. Round 6: stale longer audit files at output paths; the audit file is ONE JSON document; per-cent signs on command lines; duration = finish - start, interval contains the execution. Round 7: parameters that are not on the command line; the sibling of a tagger on an idle machine. Round 8: two tagging components attaching different values under one key. distinct = event-log hash; non-trivial = >=2 tasks and >=1 non-default choice",
 		Run: func(c *Case) Verdict {
 			switch c.Tape.Choose(simrt.StGen, 9, 0) {
 			case 1:
